@@ -22,7 +22,7 @@ RULE = ("Hypothesis: 1-4 fields, each with a string pseudo-type (int/float/bool/
         ">= 1 wrapper, or an optional pseudo-typed field that is null/missing in some sample. distinct = canonical JSON of the case.")
 ASSUMPTIONS = ["attrs with converters off and boolean/date-like strings is a listed known finding (excluded from the construct clause by "
                "predicate, replayed)", "load failures are C03's business (skipped, counted)"]
-FLOORS = {"wrapped-pseudo-type": 0.4}
+FLOORS = {"wrapped-pseudo-type": 0.25}
 
 POOLS = {
     "IntString": ["1", "-7", "42", "007", " 12 ", "0"],
